@@ -34,8 +34,8 @@
 #define MAXKEYS (MAXW * KPW + NSHARED)
 #define MAXBATCH 200
 
-enum { V_MIXED, V_GROUP, V_STALL, V_L0STOP, V_TWOMANUAL, V_BACKUP, V_BGERROR, V_TINY, V_NVARIANTS };
-static const char *variant_name[] = {"mixed", "group-commit", "buffer-stall", "l0-stop", "two-manual-compactions", "backup", "bg-error", "tiny-enumerated"};
+enum { V_MIXED, V_GROUP, V_STALL, V_L0STOP, V_TWOMANUAL, V_BACKUP, V_BGERROR, V_TINY, V_REOPENL0, V_NVARIANTS };
+static const char *variant_name[] = {"mixed", "group-commit", "buffer-stall", "l0-stop", "two-manual-compactions", "backup", "bg-error", "tiny-enumerated", "reopen-with-many-l0-files"};
 
 typedef struct upd_s { int key, del; uint64_t vid; } upd_t;
 
@@ -327,6 +327,7 @@ static void gen_scenario(vrng_t *r) {
     case V_BACKUP: nw = 2; nr = 2; ops = 12 + (int)vr_uniform(r, 15); break;
     case V_BGERROR: nw = 2 + (int)vr_uniform(r, 2); nr = 2; ops = 20 + (int)vr_uniform(r, 20); break;
     case V_TINY: nw = 2 + (g_sched % 3 == 2); nr = 1; ops = 2; break;
+    case V_REOPENL0: nw = 1 + (int)vr_uniform(r, 2); nr = (int)vr_uniform(r, 2); ops = 30 + (int)vr_uniform(r, 20); break;
     default: nw = 1 + (int)vr_uniform(r, 4); nr = 1 + (int)vr_uniform(r, 4); ops = 10 + (int)vr_uniform(r, 40); break;
   }
   NW = nw; NR = nr;
@@ -343,7 +344,7 @@ static void gen_scenario(vrng_t *r) {
       wop_t *w = &t->w[j];
       int nk = (variant == V_GROUP || variant == V_TINY) ? 1 + (int)vr_uniform(r, 2) : 1 + (int)vr_uniform(r, KPW), u, used[KPW] = {0};
       /* now and then a batch far above the 128 KiB group-size threshold, queued among small ones */
-      int big = (variant == V_GROUP || variant == V_MIXED) && vr_chance(r, 90);
+      int big = ((variant == V_GROUP || variant == V_MIXED) && vr_chance(r, 90)) || (variant == V_REOPENL0 && vr_chance(r, 150));
       if (big) nk = KPW;
       w->b = j + 1;
       w->sync = vr_chance(r, variant == V_GROUP ? 400 : 150);
@@ -804,8 +805,39 @@ static int run_schedule(int s, const char *base) {
     iom_delay(sc.seed, 150, 200);
   }
   dbh_init(&H, dir, &c);
-  rc = dbh_open(&H, 1);
+  if (variant == V_REOPENL0) {
+    /* the database is opened under the scheduler in a state that normal operation never leaves behind at an open:
+       far more level-0 files than the stop limit (a 1.3 MiB log written with a large write buffer, replayed with a
+       64 KiB one = ~20 level-0 tables; the compaction that follows is cut short by an immediate close), and with
+       reuse_logs so that the open itself writes nothing.  Writers must still get going. */
+    int k0;
+    char kb0[40];
+    H.cfg.write_buffer_size = 4 << 20;
+    H.cfg.reuse_logs = 0;
+    if (dbh_open(&H, 1) != LDB_OK) vh_fatal("reopen-l0 setup: create failed");
+    for (k0 = 0; k0 < 330; k0++) {
+      ldb_slice_t pk, pv;
+      pk = ldb_slice(kb0, (size_t)sprintf(kb0, "pre/%06d", k0 % 150));
+      vh_fill_value(vbuf_tls[0], 4000, 0x7000000 + (uint64_t)k0);
+      pv = ldb_slice(vbuf_tls[0], 4000);
+      if (ldb_put(H.db, &pk, &pv, NULL) != LDB_OK) vh_fatal("reopen-l0 setup: put failed");
+    }
+    dbh_close(&H);
+    H.cfg.write_buffer_size = 64 << 10;
+    if (dbh_open(&H, 0) != LDB_OK) vh_fatal("reopen-l0 setup: recovery failed");
+    dbh_close(&H);           /* at once: the level-0 compaction is abandoned (if the scheduler lets the close win) */
+    H.cfg.reuse_logs = 1;
+    vh_count("reopen_l0_setups", 1);
+  }
+  rc = dbh_open(&H, variant == V_REOPENL0 ? 0 : 1);
   if (rc != LDB_OK) vh_fatal("cannot create database rc=%d", rc);
+  if (variant == V_REOPENL0) {
+    char *val = NULL;
+    int l0 = 0;
+    if (ldb_property(H.db, "leveldb.num-files-at-level0", &val) && val != NULL) { l0 = atoi(val); ldb_free(val); }
+    vh_count("reopen_l0_level0_files_at_open", (uint64_t)l0);
+    if (l0 >= 12) vh_count("reopen_l0_opens_at_or_above_the_stop_limit", 1);
+  }
   if (variant == V_BGERROR) {
     /* a table write fails once (or from now on) while writers are active */
     iom_fault_add(IOP_WRITE, PC_TABLE, 1 + vr_uniform(&r, 6), vr_uniform(&r, 2) ? ENOSPC : EIO, (int)vr_uniform(&r, 2), IOF_CLEAN);
